@@ -11,7 +11,12 @@ fn main() {
     let seed: u64 = args.get(1).and_then(|s| s.parse().ok()).unwrap_or(1);
     let n: u64 = args.get(2).and_then(|s| s.parse().ok()).unwrap_or(200);
     let mut st = Stats::default();
+    let progress = std::env::var_os("C13_MIRI_PROGRESS").is_some();
+    let t0 = std::time::Instant::now();
     for i in 0..n {
+        if progress {
+            eprintln!("value {i} at {:.1}s", t0.elapsed().as_secs_f64());
+        }
         let mut rng = Rng::derive(seed ^ 0x6d69_7269, i);
         pair_case(i, &mut rng, &mut st);
         // the one unsafe block: every key variant, compared with the safe equivalent
